@@ -68,7 +68,7 @@ func runC07(t *testing.T, seed uint64, m *Mask) *Report {
 	nCli := 1 + r.Intn(2)
 	nOps := 4 + r.Intn(14)
 	var ops []c07Op
-	kinds := []string{"dial", "dial", "dial", "dial_reject_accept", "dial_reject_dial", "setid_fresh", "setid_collide", "call", "call", "push", "close_cli", "close_srv", "close_twice", "cut", "close_vs_cut", "close_vs_remote_close", "call_vs_close", "setid_vs_close", "dial_age", "dial_age", "push_vs_remote_close", "push_vs_cut", "call_vs_remote_close"}
+	kinds := []string{"dial", "dial", "dial", "dial_reject_accept", "dial_reject_dial", "setid_fresh", "setid_collide", "call", "call", "push", "close_cli", "close_srv", "close_twice", "cut", "close_vs_cut", "close_vs_remote_close", "call_vs_close", "setid_vs_close", "dial_age", "dial_age", "push_vs_remote_close", "push_vs_cut", "call_vs_remote_close", "dial_retry_after_reject"}
 	for i := 0; i < nOps; i++ {
 		ops = append(ops, c07Op{kind: kinds[r.Intn(len(kinds))], a: r.Intn(1000), b: r.Intn(1000), s: fmt.Sprintf("id%d", r.Intn(4))})
 	}
@@ -117,6 +117,11 @@ func runC07(t *testing.T, seed uint64, m *Mask) *Report {
 			peers = append(peers, p)
 			routes = append(routes, e.RegisterStd(p))
 		}
+		// one more client whose Dial retries (RedialTimes also is the number of further dial attempts): a dial hook
+		// that refuses the first attempt and accepts the next one yields an ordinary fresh session
+		retryCli := len(peers)
+		peers = append(peers, e.NewPeer("cli-retry", erpc.PeerConfig{RedialTimes: 2, RedialInterval: 5 * time.Millisecond}, mkRec("rec-cli-retry")))
+		routes = append(routes, e.RegisterStd(peers[retryCli]))
 		pf := world.ProtoFunc(proto)
 		e.Serve(peers[0], "10.9.0.1:9000", pf)
 		var pairs []*c07Pair
@@ -371,6 +376,48 @@ func runC07(t *testing.T, seed uint64, m *Mask) *Report {
 				kill(x.pair)
 				simrt.WaitQuiescent()
 				checkIndex("after " + op.kind)
+			case "dial_retry_after_reject":
+				rejectDial = true
+				nConnBefore := len(e.Net.Conns)
+				s, st := peers[retryCli].Dial("10.9.0.1:9000", pf)
+				rejectDial = false
+				pr := &c07Pair{idx: len(pairs)}
+				if n := len(e.Net.Conns); n > nConnBefore {
+					pr.conn = e.Net.Conns[n-1]
+				}
+				pairs = append(pairs, pr)
+				if !st.OK() {
+					e.Fail("C07/dial-retry-failed", "a Dial with two further attempts failed although the hook refused only the first one: %v | history: %s", st, strings.Join(trace, " "))
+					continue
+				}
+				cli := &c07End{sess: s, peer: retryCli, key: world.SessKey(s), id: s.LocalAddr().String(), live: true, estab: true, pair: pr}
+				pr.cli = cli
+				ends = append(ends, cli)
+				simrt.WaitQuiescent()
+				srvS := e.FindSession(peers[0], s.LocalAddr().String())
+				if srvS == nil {
+					e.Fail("C07/accepted-session-not-indexed", "server has no session for %s after the retried dial settled | history: %s", s.LocalAddr(), strings.Join(trace, " "))
+					cli.live = false
+					continue
+				}
+				srv := &c07End{sess: srvS, peer: 0, key: world.SessKey(srvS), id: srvS.RemoteAddr().String(), live: true, estab: true, pair: pr}
+				pr.srv = srv
+				ends = append(ends, srv)
+				checkIndex("after dial_retry_after_reject")
+				select {
+				case <-s.CloseNotify():
+					e.Fail("C07/close-notify-on-live-session", "the close notification of the freshly dialled, healthy session %s has already fired | history: %s", cli.key, strings.Join(trace, " "))
+				default:
+				}
+				if o := issue(cli, "call"); !o.OK {
+					e.Fail("C07/op-failed-on-live-session", "call on the freshly dialled session %s failed: %d %s | history: %s", cli.key, o.Code, o.Msg, strings.Join(trace, " "))
+				}
+				// this client redials lost connections, which the model of the other operations does not cover: the
+				// session is closed locally before the history goes on
+				s.Close()
+				kill(pr)
+				simrt.WaitQuiescent()
+				checkIndex("after closing the retried session")
 			case "dial_age":
 				// a new session whose client or server end has a maximum age; optionally a local Close, a call or a
 				// SetID lands at the very instant the age runs out.  Then the system settles: both ends are gone
